@@ -669,7 +669,12 @@ class NR1dNsMinimizerImpl(
 
             x[0] = ns
             (f, fprime, fprimeprime) = func(x, *func_args)
-            step = -fprime / fprimeprime
+            if fprime == 0 and fprimeprime == 0:
+                # The function is flat at ns, i.e. ns is a stationary point.
+                # The NR step 0/0 is undefined and would turn ns into NaN.
+                step = 0.0
+            else:
+                step = -fprime / fprimeprime
 
             # Exit optimization if ns is at boundary but next step would be outside.
             if (ns == ns_min and step < 0.0) or (ns == ns_max and step > 0.0):
